@@ -60,7 +60,8 @@ def main(c):
     for s in list(idx.values())[:3]:
         c.sample({"scenario": s["desc"]})
     cands = [(sig_of(r, idx[r["scn"]]), r, idx[r["scn"]]) for r in rejects]
-    c.confirm(drv, "c10", specs, "Conc_Trace.tla", "Conc_Trace.cfg", cands, sig_of)
+    # what a run shows depends on the schedule: re-run up to 8 of the rejected scenarios of a signature
+    c.confirm(drv, "c10", specs, "Conc_Trace.tla", "Conc_Trace.cfg", cands, sig_of, tries=8)
     return c.finish(
         rule="scenario = event-queue size (1,2,4,1024) x capability set x input flood x reader policy (drain/slow/none) x up to 3 "
              "posters (PostEvent/PostEventBlocking/SyncFunc/Resize) x queries from another goroutine x frames rendered meanwhile x "
